@@ -1616,6 +1616,347 @@ func ruleRecursion(p *Program, r *Reporter) {
 		}
 		r.Fail(key, p.Pos(comp[0].Pos()), "this recursive component is reachable from the API and has no depth guard: input that nests deeply enough overflows the Go stack, which is fatal for the host process and cannot be recovered (members: "+strings.Join(names, ", ")+")")
 	}
+	deepeningLoops(p, r, reach)
+}
+
+// deepeningLoops: the walks of the syntax tree (compiler, printer, the search
+// for nested ternaries) are bounded "by the depth of the tree, which only the
+// parser builds" — and the parser does not build depth by recursion alone: a
+// loop that wraps what it has so far into a new node on every cycle
+// (`left = infix(left)`: "a + b + c" is "(a + b) + c") makes a tree as deep as
+// the chain is long without a single nested call.  Every such loop has to
+// count its cycles against the limit the recursion counts against.
+func deepeningLoops(p *Program, r *Reporter, reach map[*ssa.Function]bool) {
+	cg := p.CallGraph()
+	isTree := func(t types.Type) bool {
+		if isASTish(t) {
+			return true
+		}
+		if it, ok := t.Underlying().(*types.Interface); ok && it.NumMethods() > 0 {
+			if n, ok := types.Unalias(t).(*types.Named); ok && n.Obj().Pkg() != nil && n.Obj().Pkg().Path() == Mod+"/ast" {
+				return true
+			}
+		}
+		return false
+	}
+	// derives: v is (a wrapper around) the value w
+	var derives func(v, w ssa.Value, depth int) bool
+	derives = func(v, w ssa.Value, depth int) bool {
+		if v == w {
+			return true
+		}
+		if depth > 6 {
+			return false
+		}
+		switch x := v.(type) {
+		case *ssa.MakeInterface:
+			return derives(x.X, w, depth+1)
+		case *ssa.ChangeInterface:
+			return derives(x.X, w, depth+1)
+		case *ssa.ChangeType:
+			return derives(x.X, w, depth+1)
+		case *ssa.TypeAssert:
+			return derives(x.X, w, depth+1)
+		case *ssa.Extract:
+			return derives(x.Tuple, w, depth+1)
+		}
+		return false
+	}
+	// counterInc: the instruction adds one to a field
+	counterInc := func(ins ssa.Instruction) string {
+		st, ok := ins.(*ssa.Store)
+		if !ok {
+			return ""
+		}
+		bo, ok := st.Val.(*ssa.BinOp)
+		if !ok || bo.Op != token.ADD {
+			return ""
+		}
+		if n, ok := constInt(bo.Y); !ok || n != 1 {
+			return ""
+		}
+		if ld, ok := bo.X.(*ssa.UnOp); !ok || fieldKey(ld.X) != fieldKey(st.Addr) {
+			return ""
+		}
+		return fieldKey(st.Addr)
+	}
+	// guardedIncIn: among the given blocks, a block that increments a counter
+	// and then compares it with a constant, one side of the comparison leaving
+	// (returning) without going on
+	guardedInc := func(f *ssa.Function, inLoop func(b *ssa.BasicBlock) bool) (blk *ssa.BasicBlock, counter string) {
+		for _, b := range f.Blocks {
+			if !inLoop(b) {
+				continue
+			}
+			// the count and the test made by a helper whose boolean result says
+			// whether the limit was passed: `if !p.descend() { return nil }`
+			if iff, ok := terminator(b).(*ssa.If); ok && len(b.Succs) == 2 {
+				cond, neg := iff.Cond, false
+				if u, ok := cond.(*ssa.UnOp); ok && u.Op == token.NOT {
+					cond, neg = u.X, true
+				}
+				if cl, ok := cond.(*ssa.Call); ok && cl.Call.StaticCallee() != nil {
+					if passWhen, ok := depthGuardHelper(cl.Call.StaticCallee()); ok {
+						refused := 1 // successor taken when the helper refuses
+						if passWhen == neg {
+							refused = 0
+						}
+						if _, isRet := terminator(b.Succs[refused]).(*ssa.Return); isRet {
+							// the counter the helper counts in
+							ck := ""
+							for _, hb := range cl.Call.StaticCallee().Blocks {
+								for _, hi := range hb.Instrs {
+									if k := counterInc(hi); k != "" {
+										ck = k
+									}
+								}
+							}
+							if ck != "" {
+								return b, ck
+							}
+						}
+					}
+				}
+			}
+			for _, ins := range b.Instrs {
+				ck := counterInc(ins)
+				if ck == "" {
+					continue
+				}
+				// the test: in this block or a block it dominates (within the loop)
+				for _, tb := range f.Blocks {
+					if !(tb == b || b.Dominates(tb)) {
+						continue
+					}
+					iff, ok := terminator(tb).(*ssa.If)
+					if !ok {
+						continue
+					}
+					bo, ok := iff.Cond.(*ssa.BinOp)
+					if !ok || (bo.Op != token.GTR && bo.Op != token.GEQ && bo.Op != token.LSS && bo.Op != token.LEQ) {
+						continue
+					}
+					names := func(v ssa.Value) bool {
+						for _, o := range origins(v) {
+							if u, ok := o.(*ssa.UnOp); ok && fieldKey(u.X) == ck {
+								return true
+							}
+							if b2, ok := o.(*ssa.BinOp); ok {
+								if u, ok := b2.X.(*ssa.UnOp); ok && fieldKey(u.X) == ck {
+									return true
+								}
+							}
+						}
+						return false
+					}
+					_, cy := bo.Y.(*ssa.Const)
+					_, cx := bo.X.(*ssa.Const)
+					if !(cy && names(bo.X) || cx && names(bo.Y)) {
+						continue
+					}
+					for _, sc := range tb.Succs {
+						if _, isRet := terminator(sc).(*ssa.Return); isRet {
+							return b, ck
+						}
+					}
+				}
+			}
+		}
+		return nil, ""
+	}
+	var fns []*ssa.Function
+	for f := range reach {
+		if fnPkg(f) != nil && fnPkg(f).Pkg.Path() == Mod+"/parser" {
+			fns = append(fns, f)
+		}
+	}
+	sort.Slice(fns, func(i, j int) bool { return p.FnName(fns[i]) < p.FnName(fns[j]) })
+	found := 0
+	for _, f := range fns {
+		nth := 0
+		for _, hb := range f.Blocks {
+			// a loop header: has a predecessor it dominates
+			var latches []*ssa.BasicBlock
+			for _, pd := range hb.Preds {
+				if hb.Dominates(pd) {
+					latches = append(latches, pd)
+				}
+			}
+			if len(latches) == 0 {
+				continue
+			}
+			// the natural loop
+			loop := map[*ssa.BasicBlock]bool{hb: true}
+			var work []*ssa.BasicBlock
+			for _, l := range latches {
+				if !loop[l] {
+					loop[l] = true
+					work = append(work, l)
+				}
+			}
+			for len(work) > 0 {
+				b := work[len(work)-1]
+				work = work[:len(work)-1]
+				for _, pd := range b.Preds {
+					if !loop[pd] {
+						loop[pd] = true
+						work = append(work, pd)
+					}
+				}
+			}
+			for _, ins := range hb.Instrs {
+				phi, ok := ins.(*ssa.Phi)
+				if !ok || !isTree(phi.Type()) {
+					continue
+				}
+				// the value that comes round: wraps the φ?
+				var wrapCall ssa.CallInstruction
+				var wrapLit *ssa.Alloc
+				for i, e := range phi.Edges {
+					if !loop[hb.Preds[i]] {
+						continue
+					}
+					for _, o := range origins(e) {
+						for {
+							if mi, ok := o.(*ssa.MakeInterface); ok {
+								o = mi.X
+								continue
+							}
+							if ex, ok := o.(*ssa.Extract); ok {
+								o = ex.Tuple
+								continue
+							}
+							break
+						}
+						switch x := o.(type) {
+						case *ssa.Call:
+							for _, a := range x.Call.Args {
+								if derives(a, phi, 0) {
+									wrapCall = x
+								}
+							}
+						case *ssa.Alloc:
+							if !isASTish(x.Type()) {
+								continue
+							}
+							for _, ref := range *x.Referrers() {
+								if fa, ok := ref.(*ssa.FieldAddr); ok {
+									for _, r2 := range *fa.Referrers() {
+										if st, ok := r2.(*ssa.Store); ok && st.Addr == ssa.Value(fa) && derives(st.Val, phi, 0) {
+											wrapLit = x
+										}
+									}
+								}
+							}
+						}
+					}
+				}
+				if wrapCall == nil && wrapLit == nil {
+					continue
+				}
+				found++
+				nth++
+				key := fmt.Sprintf("%s/tree-deepening loop %d counts its cycles against a limit", p.FnName(f), nth)
+				var wrapBlock *ssa.BasicBlock
+				var wrapPos token.Pos
+				if wrapCall != nil {
+					wrapBlock, wrapPos = wrapCall.Block(), wrapCall.Pos()
+				} else {
+					wrapBlock, wrapPos = wrapLit.Block(), wrapLit.Pos()
+				}
+				ib, ck := guardedInc(f, func(b *ssa.BasicBlock) bool { return loop[b] })
+				if ib != nil && (ib == wrapBlock || ib.Dominates(wrapBlock)) {
+					// nothing in the loop gives the count back
+					undone := token.NoPos
+					for b := range loop {
+						for _, in2 := range b.Instrs {
+							if st, ok := in2.(*ssa.Store); ok && fieldKey(st.Addr) == ck && counterInc(in2) == "" {
+								undone = st.Pos()
+							}
+						}
+					}
+					if undone.IsValid() {
+						r.Fail(key, p.Pos(undone), "the loop counts a level for every node it wraps around the tree built so far, and gives it back inside the same loop: the count never grows with the chain, so the limit is never reached")
+					} else {
+						r.OkNT(key, p.Pos(wrapPos), "every cycle that wraps the tree adds one to "+ck+" and tests it against the limit first")
+					}
+					continue
+				}
+				// or: every function the wrapping call can reach counts for itself
+				if wrapCall != nil {
+					var callees []*ssa.Function
+					if cal := wrapCall.Common().StaticCallee(); cal != nil {
+						callees = []*ssa.Function{cal}
+					} else if n := cg.Nodes[f]; n != nil {
+						for _, e := range n.Out {
+							if e.Site == wrapCall {
+								callees = append(callees, e.Callee.Func)
+							}
+						}
+					}
+					sort.Slice(callees, func(i, j int) bool { return p.FnName(callees[i]) < p.FnName(callees[j]) })
+					var unguarded []string
+					for _, cal := range callees {
+						if len(cal.Blocks) == 0 {
+							continue
+						}
+						// a bound method value (p.parseX stored in a table): the method itself
+						for hop := 0; hop < 3 && cal.Synthetic != ""; hop++ {
+							var inner *ssa.Function
+							for _, b := range cal.Blocks {
+								for _, in2 := range b.Instrs {
+									if cc := callOf(in2); cc != nil && cc.StaticCallee() != nil {
+										inner = cc.StaticCallee()
+									}
+								}
+							}
+							if inner == nil || len(inner.Blocks) == 0 {
+								break
+							}
+							cal = inner
+						}
+						cb, cck := guardedInc(cal, func(b *ssa.BasicBlock) bool { return true })
+						ok := cb != nil
+						if ok {
+							// before anything is built: the increment dominates every return
+							// that is not the refusal itself, and nothing in the callee
+							// gives the level back (the loop is to accumulate them)
+							for _, b := range cal.Blocks {
+								for _, in2 := range b.Instrs {
+									if st, isSt := in2.(*ssa.Store); isSt && fieldKey(st.Addr) == cck && counterInc(in2) == "" {
+										ok = false
+									}
+									if df, isDf := in2.(*ssa.Defer); isDf {
+										_ = df
+										ok = false
+									}
+								}
+								if _, isRet := terminator(b).(*ssa.Return); isRet && !(cb == b || cb.Dominates(b)) {
+									ok = false
+								}
+							}
+						}
+						if !ok {
+							unguarded = append(unguarded, p.FnName(cal))
+						}
+					}
+					if len(callees) > 0 && len(unguarded) == 0 {
+						r.OkNT(key, p.Pos(wrapPos), fmt.Sprintf("each of the %d function(s) the wrapping call can reach adds a level and tests the limit before it builds its node", len(callees)))
+						continue
+					}
+					if len(unguarded) > 4 {
+						unguarded = append(unguarded[:4], fmt.Sprintf("… (%d)", len(unguarded)))
+					}
+					r.Fail(key, p.Pos(wrapPos), "this loop wraps the tree it has built so far into a new node on every cycle and nothing counts the cycles against the nesting limit (not the loop, and not every function the call can reach: "+strings.Join(unguarded, ", ")+"): a chain of a few million operators — index or call operators included — gives a tree that deep, and the recursive walks over it (the compiler first) overflow the Go stack, which kills the host process")
+					continue
+				}
+				r.Fail(key, p.Pos(wrapPos), "this loop wraps the tree it has built so far into a new node on every cycle and nothing counts the cycles against the nesting limit: the recursive walks over the tree (the compiler first) overflow the Go stack on a long enough chain, which kills the host process")
+			}
+		}
+	}
+	if found == 0 {
+		r.Info("tree-deepening loops in the parser", "-", "none found")
+	}
 }
 
 // structuralTreeWalk: every function of the component takes a syntax node
@@ -2170,6 +2511,15 @@ func canon(v ssa.Value, fn *ssa.Function) lin {
 	case *ssa.Convert:
 		if b, ok := v.Type().Underlying().(*types.Basic); ok && b.Info()&types.IsInteger != 0 {
 			if sb, ok := v.X.Type().Underlying().(*types.Basic); ok && sb.Info()&types.IsInteger != 0 {
+				// a conversion to a narrower integer type (int64 → int where int
+				// has 32 bits) keeps only the low bits: what is known about the
+				// source says nothing about the result
+				if curProgram != nil && len(curProgram.Pkgs) > 0 && curProgram.Pkgs[0].TypesSizes != nil {
+					sz := curProgram.Pkgs[0].TypesSizes
+					if sz.Sizeof(b) < sz.Sizeof(sb) {
+						return lin{v.Name(), 0}
+					}
+				}
 				return canon(v.X, fn)
 			}
 		}
@@ -2470,6 +2820,7 @@ func rulePoll(p *Program, r *Reporter) {
 	r.Check(allPolled && nBack > 0, "the poll is on every cycle of the dispatch loop", p.Pos(sel.Pos()), fmt.Sprintf("%d back edge(s), each dominated by the poll", nBack), "some path around the dispatch loop (for example a `continue`) bypasses the context poll: a script spinning on that path cannot be stopped")
 	// the ready edge returns a non-nil error
 	readyOK := false
+	var readyBlock *ssa.BasicBlock
 	for _, ref := range liveRefs(sel) {
 		ex, ok := ref.(*ssa.Extract)
 		if !ok || ex.Index != 0 {
@@ -2486,6 +2837,7 @@ func rulePoll(p *Program, r *Reporter) {
 			for _, r3 := range liveRefs(bo) {
 				if iff, ok := r3.(*ssa.If); ok {
 					tb := iff.Block().Succs[0]
+					readyBlock = tb
 					if ret, ok := terminator(tb).(*ssa.Return); ok && !isSuccessReturn(ret) {
 						readyOK = true
 					}
@@ -2494,6 +2846,126 @@ func rulePoll(p *Program, r *Reporter) {
 		}
 	}
 	r.Check(readyOK, "an expired context ends the run with an error", p.Pos(sel.Pos()), "ready branch returns a non-nil error", "when the context is done the interpreter does not return a non-nil error")
+	// ... and promptly: between noticing that the context is done and the
+	// return, nothing is done whose cost depends on the script's values
+	// (printing the stack, say: the printed form of a value can be exponential
+	// in the size of the script that built it)
+	if readyBlock != nil {
+		var slow string
+		var slowPos token.Pos
+		var boundedFn func(f *ssa.Function, depth int) bool
+		var cheap func(ins ssa.Instruction, depth int) bool
+		basicArg := func(v ssa.Value) bool {
+			for {
+				if mi, ok := v.(*ssa.MakeInterface); ok {
+					v = mi.X
+					continue
+				}
+				break
+			}
+			if c, ok := v.(*ssa.Const); ok && c.IsNil() {
+				return true
+			}
+			_, isBasic := v.Type().Underlying().(*types.Basic)
+			return isBasic
+		}
+		cheap = func(ins ssa.Instruction, depth int) bool {
+			cc := callOf(ins)
+			if cc == nil {
+				return true
+			}
+			if _, isBuiltin := cc.Value.(*ssa.Builtin); isBuiltin {
+				return true
+			}
+			if cc.IsInvoke() {
+				return isStdNamed(cc.Value.Type(), "context", "Context") || isErrorType(cc.Value.Type())
+			}
+			cal := cc.StaticCallee()
+			if cal == nil {
+				return false
+			}
+			if fnPkg(cal) != nil && IsLibPath(fnPkg(cal).Pkg.Path()) {
+				return boundedFn(cal, depth+1)
+			}
+			pkgPath := ""
+			if cal.Pkg != nil {
+				pkgPath = cal.Pkg.Pkg.Path()
+			}
+			switch pkgPath {
+			case "fmt", "errors", "strings", "strconv":
+				for _, a := range cc.Args {
+					if els, known := varargsOf(a); known && a.Type().Underlying() != nil {
+						if _, isSlice := a.Type().Underlying().(*types.Slice); isSlice {
+							for _, e := range els {
+								if e != nil && !basicArg(e) {
+									return false
+								}
+							}
+							continue
+						}
+					}
+					if !basicArg(a) {
+						return false
+					}
+				}
+				return true
+			}
+			return false
+		}
+		bounded := map[*ssa.Function]int{}
+		boundedFn = func(f *ssa.Function, depth int) bool {
+			if v, ok := bounded[f]; ok {
+				return v == 1 // a function met again while it is examined is recursive: 0
+			}
+			if depth > 4 || len(f.Blocks) == 0 {
+				return false
+			}
+			bounded[f] = 0
+			for _, b := range f.Blocks {
+				for _, sc := range b.Succs {
+					if sc.Dominates(b) {
+						return false // a loop
+					}
+				}
+				for _, ins := range b.Instrs {
+					if !cheap(ins, depth) {
+						return false
+					}
+				}
+			}
+			bounded[f] = 1
+			return true
+		}
+		seenB := map[*ssa.BasicBlock]bool{}
+		var walk func(b *ssa.BasicBlock)
+		walk = func(b *ssa.BasicBlock) {
+			if seenB[b] || slow != "" {
+				return
+			}
+			seenB[b] = true
+			for _, ins := range b.Instrs {
+				if !cheap(ins, 0) {
+					slow = strings.TrimPrefix(callKey(p, run, ins.(ssa.CallInstruction)), "call ")
+					slowPos = ins.Pos()
+					return
+				}
+			}
+			if _, ok := terminator(b).(*ssa.Return); ok {
+				return
+			}
+			for _, sc := range b.Succs {
+				if sc != header {
+					walk(sc)
+				}
+			}
+		}
+		walk(readyBlock)
+		if slow != "" {
+			r.Fail("an expired context ends the run promptly", p.Pos(slowPos), "once the context is done the interpreter still calls "+slow+" before it returns: that is not known to take bounded time (it loops, recurses, or formats a value whose printed form the script controls), so the run can outlast its deadline by as long as the script likes")
+		} else {
+			r.OkNT("an expired context ends the run promptly", p.Pos(sel.Pos()), "the ready branch only builds an error from constants and numbers before it returns")
+		}
+	}
 	// inner loops
 	for _, b := range run.Blocks {
 		isHeader := false
